@@ -53,9 +53,21 @@ type IdGroup struct {
 	Prefixes []string `json:"prefixes"`
 }
 
+// Split adds a second configuration entry for a peer that is already listed (the
+// one-entry-per-role shape of real network configurations, cf. TestNewNodeConfFromYaml).
+type Split struct {
+	Node     int      `json:"node"`      // index into Nodes (mod len)
+	Types    []string `json:"types"`     // types of the additional entry ("tree" is stripped unless TakeTree/KeepTree)
+	Addrs    []string `json:"addrs"`     // addresses of the additional entry
+	TakeTree bool     `json:"take_tree"` // the tree role moves from the primary entry to this one
+	KeepTree bool     `json:"keep_tree"` // the tree role is listed in both entries
+	Before   bool     `json:"before"`    // entry is placed directly before the primary one (else at the end of the list)
+}
+
 type Case struct {
 	IdStyle int        `json:"id_style"` // 0: real peer ids derived from keys, 1: short strings
-	Nodes   []NodeSpec `json:"nodes"`
+	Nodes   []NodeSpec `json:"nodes"`    // distinct peers (participants); primary entries
+	Splits  []Split    `json:"splits"`   // additional entries for some of the peers
 	// Routes[i] says how participant i (nodes in order, then the client) learns the
 	// configuration (see "Routes" below): 0 app config, 1 last stored configuration, 2 update
 	// pulled from the source after starting on an older configuration, 3..11 stored
@@ -63,7 +75,7 @@ type Case struct {
 	// with a source that answers not-changed / fails / delivers. Missing = 0.
 	Routes []int `json:"routes"`
 	// metamorphic variants, all asked from the client's viewpoint
-	Perm     []int      `json:"perm"`      // order of nodes in the permuted variant (indices into Nodes; missing ones appended)
+	Perm     []int      `json:"perm"`      // order of configuration entries in the permuted variant (indices; missing ones appended)
 	Extra    []NodeSpec `json:"extra"`     // non-tree nodes added in the "more non-tree" variant (tree types are stripped)
 	AddrSalt string     `json:"addr_salt"` // addresses of the "other addresses" variant are derived from this
 	Groups   []IdGroup  `json:"groups"`
@@ -155,6 +167,8 @@ func (stubChecker) Name() string                                       { return 
 func (stubChecker) IsNetworkNeedsUpdate(context.Context) (bool, error) { return false, nil }
 
 type participant struct {
+	mergedKept bool // the active configuration is the merged one Init marked "-1"
+
 	id  string
 	svc nodeconf.Service
 	a   *app.App
@@ -188,12 +202,17 @@ func cloneConf(c nodeconf.Configuration) nodeconf.Configuration {
 //	   diff 2: app config lacks the coordinators of the stored one (nothing to merge)
 //	   src  0: the source answers "not changed", 1: the source fails, 2: the source delivers
 //	           the current configuration (the stored one is then a stale older one)
-const nRoutes = 12
+//	12 live update with role change: starts on an app config v1 that lists the same peer
+//	   ids in the same order but with other roles (every second peer gains / loses "tree")
+//	   and other addresses; the source then delivers the current configuration
+//	13 same, v1 additionally being the last stored configuration
+//	14 live update that only changes addresses (v1 has the final roles)
+const nRoutes = 15
 
 const bootCoordinator = "c18-bootstrap-coordinator"
 
 func routeParts(route int) (merge bool, diff, src int) {
-	if route < 3 {
+	if route < 3 || route > 11 {
 		return false, 0, 0
 	}
 	return true, (route - 3) / 3, (route - 3) % 3
@@ -208,6 +227,45 @@ func staleConf(conf nodeconf.Configuration, self string) nodeconf.Configuration 
 			{PeerId: "old-coordinator", Addresses: []string{"old:2"}, Types: []nodeconf.NodeType{nodeconf.NodeTypeCoordinator}},
 		},
 	}
+}
+
+// previousVersion is a configuration with the same peer ids in the same order as conf, other
+// addresses and - if roles is set - other roles: every second peer (by first appearance)
+// loses the tree role if it has it, gains it otherwise.
+func previousVersion(conf nodeconf.Configuration, roles bool) nodeconf.Configuration {
+	v1 := cloneConf(conf)
+	v1.Id = conf.Id + "-v1"
+	order := map[string]int{}
+	isTreePeer := map[string]bool{}
+	for _, n := range conf.Nodes {
+		if _, ok := order[n.PeerId]; !ok {
+			order[n.PeerId] = len(order)
+		}
+		if n.HasType(nodeconf.NodeTypeTree) {
+			isTreePeer[n.PeerId] = true
+		}
+	}
+	gained := map[string]bool{}
+	for i := range v1.Nodes {
+		n := &v1.Nodes[i]
+		n.Addresses = append(n.Addresses, "v1.example:1")
+		if !roles || order[n.PeerId]%2 != 0 {
+			continue
+		}
+		if isTreePeer[n.PeerId] {
+			kept := n.Types[:0]
+			for _, t := range n.Types {
+				if t != nodeconf.NodeTypeTree {
+					kept = append(kept, t)
+				}
+			}
+			n.Types = kept
+		} else if !gained[n.PeerId] {
+			gained[n.PeerId] = true
+			n.Types = append(n.Types, nodeconf.NodeTypeTree)
+		}
+	}
+	return v1
 }
 
 // newParticipant starts a real nodeconf service for account `self` that ends up with
@@ -227,6 +285,16 @@ func newParticipant(self string, conf nodeconf.Configuration, route int) (*parti
 		store.last = &c
 	case route == 2: // start with an older configuration, then the source delivers the current one
 		cfg.c = staleConf(conf, self)
+		c := cloneConf(conf)
+		src.next = &c
+		waitUpdate = true
+	case route >= 12: // live update from a version with the same peer ids and order
+		v1 := previousVersion(conf, route != 14)
+		cfg.c = v1
+		if route == 13 {
+			st := cloneConf(v1)
+			store.last = &st
+		}
 		c := cloneConf(conf)
 		src.next = &c
 		waitUpdate = true
@@ -294,10 +362,13 @@ func newParticipant(self string, conf nodeconf.Configuration, route int) (*parti
 			return nil, fmt.Errorf("participant %s (route %d) never applied the configuration delivered by the source", self, route)
 		}
 	}
-	if got := p.svc.Id(); got != wantId {
+	// which id the merge branch ends up with ("-1" or the stored one) is a detail of
+	// mergeCoordinatorAddrs (it keys entries by peer id); the harness only records it
+	if got := p.svc.Id(); got != wantId && !(merge && !waitUpdate && (got == "-1" || got == conf.Id)) {
 		p.close()
 		return nil, fmt.Errorf("participant %s (route %d) runs configuration %q, want %q", self, route, got, wantId)
 	}
+	p.mergedKept = p.svc.Id() == "-1"
 	return p, nil
 }
 
@@ -411,21 +482,15 @@ func normalise(c Case) Case {
 		extra = append(extra, n)
 	}
 	c.Extra = extra
-	// permutation: keep valid distinct indices, append the missing ones
-	used := make([]bool, len(c.Nodes))
-	var perm []int
-	for _, i := range c.Perm {
-		if i >= 0 && i < len(c.Nodes) && !used[i] {
-			used[i] = true
-			perm = append(perm, i)
+	var splits []Split
+	for _, sp := range c.Splits {
+		if len(c.Nodes) == 0 || len(splits) >= 4 {
+			break
 		}
+		sp.Node = ((sp.Node % len(c.Nodes)) + len(c.Nodes)) % len(c.Nodes)
+		splits = append(splits, sp)
 	}
-	for i := len(c.Nodes) - 1; i >= 0; i-- { // default: reversed
-		if !used[i] {
-			perm = append(perm, i)
-		}
-	}
-	c.Perm = perm
+	c.Splits = splits
 	var groups []IdGroup
 	for _, g := range c.Groups {
 		g.Key = strings.ReplaceAll(g.Key, ".", "")
@@ -436,6 +501,65 @@ func normalise(c Case) Case {
 	}
 	c.Groups = groups
 	return c
+}
+
+func stripTree(ts []string) []string {
+	out := []string{}
+	for _, t := range ts {
+		if t != string(nodeconf.NodeTypeTree) {
+			out = append(out, t)
+		}
+	}
+	return out
+}
+
+// entries expands Nodes and Splits into the list of configuration entries.
+func entries(c Case) []NodeSpec {
+	var out, tail []NodeSpec
+	for i, n := range c.Nodes {
+		primary := n
+		var before []NodeSpec
+		taken := false
+		for _, sp := range c.Splits {
+			if sp.Node != i {
+				continue
+			}
+			e := NodeSpec{Id: n.Id, Types: stripTree(sp.Types), Addrs: sp.Addrs}
+			switch {
+			case sp.TakeTree && !taken && isTree(primary.Types):
+				taken = true
+				primary.Types = stripTree(primary.Types)
+				e.Types = append(e.Types, string(nodeconf.NodeTypeTree))
+			case sp.KeepTree && isTree(n.Types) && !taken:
+				e.Types = append(e.Types, string(nodeconf.NodeTypeTree))
+			}
+			if sp.Before {
+				before = append(before, e)
+			} else {
+				tail = append(tail, e)
+			}
+		}
+		out = append(append(out, before...), primary)
+	}
+	return append(out, tail...)
+}
+
+// normPerm keeps valid distinct indices and appends the missing ones (default: reversed).
+func normPerm(in []int, n int) []int {
+	used := make([]bool, n)
+	var perm []int
+	for _, i := range in {
+		if i >= 0 && i < n && !used[i] {
+			used[i] = true
+			perm = append(perm, i)
+		}
+	}
+	for i := n - 1; i >= 0; i-- {
+		if !used[i] {
+			perm = append(perm, i)
+		}
+	}
+	return perm
 }
 
 func buildConf(id string, style int, nodes []NodeSpec) nodeconf.Configuration {
@@ -470,14 +594,33 @@ func run(c Case) (vstat.Outcome, error) {
 	if len(c.Nodes) == 0 || len(c.Groups) == 0 {
 		return out, nil
 	}
-	conf := buildConf("c18-conf", c.IdStyle, c.Nodes)
+	ents := entries(c)
+	conf := buildConf("c18-conf", c.IdStyle, ents)
 	rf := nodeconf.ReplicationFactor
 
+	// a peer is a sync node if ANY of its entries carries the tree role
 	treeSet := map[string]bool{}
+	firstEntryTree := map[string]bool{}
+	entriesOf := map[string]int{}
+	treeEntriesOf := map[string]int{}
+	for _, e := range ents {
+		id := peerId(c.IdStyle, e.Id)
+		if entriesOf[id] == 0 {
+			firstEntryTree[id] = isTree(e.Types)
+		}
+		entriesOf[id]++
+		if isTree(e.Types) {
+			treeSet[id] = true
+			treeEntriesOf[id]++
+		}
+	}
 	nTree, nNonTree := 0, 0
+	typesOf := map[string][]string{}
+	for _, e := range ents {
+		typesOf[peerId(c.IdStyle, e.Id)] = append(typesOf[peerId(c.IdStyle, e.Id)], e.Types...)
+	}
 	for _, n := range c.Nodes {
-		if isTree(n.Types) {
-			treeSet[peerId(c.IdStyle, n.Id)] = true
+		if treeSet[peerId(c.IdStyle, n.Id)] {
 			nTree++
 		} else {
 			nNonTree++
@@ -529,10 +672,10 @@ func run(c Case) (vstat.Outcome, error) {
 		variants = append(variants, variant{name, p})
 		return nil
 	}
-	if len(c.Nodes) > 1 {
-		permuted := make([]NodeSpec, 0, len(c.Nodes))
-		for _, i := range c.Perm {
-			permuted = append(permuted, c.Nodes[i])
+	if len(ents) > 1 {
+		permuted := make([]NodeSpec, 0, len(ents))
+		for _, i := range normPerm(c.Perm, len(ents)) {
+			permuted = append(permuted, ents[i])
 		}
 		if err := addVariant("permuted", permuted); err != nil {
 			return out, err
@@ -541,25 +684,25 @@ func run(c Case) (vstat.Outcome, error) {
 	if len(c.Extra) > 0 {
 		// interleave the extra non-tree nodes: first half in front, the rest at the back
 		h := len(c.Extra) / 2
-		more := append(append(append([]NodeSpec(nil), c.Extra[:h]...), c.Nodes...), c.Extra[h:]...)
+		more := append(append(append([]NodeSpec(nil), c.Extra[:h]...), ents...), c.Extra[h:]...)
 		if err := addVariant("more-non-tree", more); err != nil {
 			return out, err
 		}
 	}
-	if nNonTree > 0 && nTree > 0 {
-		var only []NodeSpec
-		for _, n := range c.Nodes {
-			if isTree(n.Types) {
-				only = append(only, n)
-			}
+	var only []NodeSpec
+	for _, n := range ents {
+		if isTree(n.Types) {
+			only = append(only, n)
 		}
+	}
+	if len(only) > 0 && len(only) < len(ents) {
 		if err := addVariant("tree-only", only); err != nil {
 			return out, err
 		}
 	}
 	{
-		readdr := make([]NodeSpec, len(c.Nodes))
-		for i, n := range c.Nodes {
+		readdr := make([]NodeSpec, len(ents))
+		for i, n := range ents {
 			readdr[i] = n
 			switch i % 3 {
 			case 0:
@@ -603,12 +746,12 @@ func run(c Case) (vstat.Outcome, error) {
 				return out, fmt.Errorf("id %q: the client reports itself responsible", id)
 			}
 			// every node's view
-			for i, n := range c.Nodes {
+			for i := range c.Nodes {
 				p := parts[i]
 				a := ask(p, id)
 				inS := contains(S, p.id)
 				if a.resp != inS {
-					return out, fmt.Errorf("id %q: node %s (types %v) IsResponsible = %v but membership in the client's responsible set %v is %v", id, p.id, n.Types, a.resp, S, inS)
+					return out, fmt.Errorf("id %q: node %s (types %v) IsResponsible = %v but membership in the client's responsible set %v is %v", id, p.id, typesOf[p.id], a.resp, S, inS)
 				}
 				if want := without(S, p.id); !eq(a.ids, want) || len(a.raw) != len(want) {
 					return out, fmt.Errorf("id %q: node %s NodeIds = %v, want responsible set %v minus itself = %v", id, p.id, a.raw, S, want)
@@ -673,12 +816,32 @@ func run(c Case) (vstat.Outcome, error) {
 	if routesUsed[2] {
 		classes["route-source-update"] = true
 	}
+	for _, p := range parts {
+		if p.mergedKept {
+			classes["route-merged-configuration-kept"] = true // active configuration is the merged "-1" one
+		}
+	}
+	if routesUsed[12] || routesUsed[13] {
+		classes["route-live-update-role-change"] = true
+	}
+	if routesUsed[14] {
+		classes["route-live-update-address-change"] = true
+	}
+	for id, n := range entriesOf {
+		if n > 1 {
+			classes["config-split-peer-entries"] = true
+			if treeSet[id] && !firstEntryTree[id] {
+				classes["split-tree-not-in-first-entry"] = true
+			}
+			if treeEntriesOf[id] > 1 {
+				classes["split-tree-in-several-entries"] = true
+			}
+		}
+	}
 	for r := range routesUsed {
 		if merge, diff, src := routeParts(r); merge {
 			classes["route-stored-vs-bootstrap-config"] = true
-			if diff != 2 && src != 2 {
-				classes["route-merged-configuration-kept"] = true // active configuration is the merged "-1" one
-			}
+			_ = diff
 			classes[[]string{"route-merge-source-unchanged", "route-merge-source-error", "route-merge-source-new"}[src]] = true
 		}
 	}
@@ -748,6 +911,14 @@ func enumerate(yield func(Case) bool) {
 				c.Routes = append(c.Routes, (idx+5*i)%nRoutes)
 			}
 			c.Routes = append(c.Routes, (idx+7)%nRoutes)
+			switch idx % 4 {
+			case 1: // the tree role (if any) sits in a second entry at the end of the list
+				c.Splits = []Split{{Node: idx % len(cur), Types: []string{"coordinator"}, Addrs: []string{"split:1"}, TakeTree: true}}
+			case 2: // a non-tree role entry precedes the primary entry
+				c.Splits = []Split{{Node: (idx / 4) % len(cur), Types: []string{"file"}, Before: true}}
+			case 3: // both
+				c.Splits = []Split{{Node: 0, Types: []string{"consensus"}, Before: true}, {Node: len(cur) - 1, Types: []string{"namingNode"}, TakeTree: true}}
+			}
 			c.Extra = []NodeSpec{{Id: 10, Types: []string{"coordinator"}, Addrs: []string{"c:1"}}, {Id: 11, Types: []string{"file", "consensus"}}}
 			return yield(c)
 		}
@@ -815,10 +986,21 @@ func genCase(rt *rapid.T) Case {
 		c.Nodes = append(c.Nodes, genNode(rt))
 	}
 	c.Routes = rapid.SliceOfN(rapid.IntRange(0, nRoutes-1), n+1, n+1).Draw(rt, "routes")
-	c.Perm = rapid.SliceOfN(rapid.IntRange(0, n-1), 0, n).Draw(rt, "perm")
+	c.Perm = rapid.SliceOfN(rapid.IntRange(0, n+2), 0, n+3).Draw(rt, "perm")
 	ne := rapid.IntRange(0, 3).Draw(rt, "nExtra")
 	for i := 0; i < ne; i++ {
 		c.Extra = append(c.Extra, genNode(rt))
+	}
+	ns := rapid.SampledFrom([]int{0, 0, 1, 1, 2, 3}).Draw(rt, "nSplits")
+	for i := 0; i < ns; i++ {
+		c.Splits = append(c.Splits, Split{
+			Node:     rapid.IntRange(0, n-1).Draw(rt, "splitNode"),
+			Types:    rapid.SliceOfN(rapid.SampledFrom(allTypes), 0, 2).Draw(rt, "splitTypes"),
+			Addrs:    rapid.SliceOfN(rapid.SampledFrom(addrPool), 0, 2).Draw(rt, "splitAddrs"),
+			TakeTree: rapid.Bool().Draw(rt, "takeTree"),
+			KeepTree: rapid.IntRange(0, 3).Draw(rt, "keepTree") == 0,
+			Before:   rapid.Bool().Draw(rt, "before"),
+		})
 	}
 	c.AddrSalt = rapid.SampledFrom([]string{"alt", "127.0.0.1:4430", ""}).Draw(rt, "addrSalt")
 	ng := rapid.IntRange(1, 4).Draw(rt, "nGroups")
@@ -857,4 +1039,17 @@ func TestRegCorners(t *testing.T) {
 	} {
 		vstat.One(t, prop, c, run)
 	}
+	// one entry per role (the shape of the repository's own yaml fixture): peer 0 is listed
+	// as coordinator first and as tree node at the end; asked from every identity
+	split := mk([]string{"tree", "coordinator"}, tr, tr, tr, append([]string{"file"}, tr...))
+	split.Splits = []Split{{Node: 0, Types: []string{"coordinator"}, Addrs: []string{"h0:1"}, TakeTree: true}}
+	split.Nodes[0].Types = tr
+	vstat.One(t, prop, split, run)
+	// every participant arrives by a live update that swaps roles between known peers
+	live := mk(tr, tr, tr, tr, []string{"file"}, []string{"file"})
+	for i := range live.Routes {
+		live.Routes[i] = 12 + i%2
+	}
+	live.Routes = append(live.Routes, 0) // the client starts fresh on the final configuration
+	vstat.One(t, prop, live, run)
 }
